@@ -542,65 +542,139 @@ func condTruth(cond ssa.Value, k int) bool {
 	return t
 }
 
-// c03Dial: O7.
+// c03Dial: O7.  The dial callback is the dial's outcome.  Success may be
+// reported only behind the socket's SO_ERROR (or the event's error flags), the
+// callback is consumed under the connection's mutex behind the !closed test
+// (so the poller's success report and a concurrent teardown cannot both run
+// it), and the teardown reports a callback that is still pending.
 func c03Dial(c *Ctx) {
 	core := c.Core()
-	fn := c.Fn("C03.O7", "(*nbio.poller).readWriteLoop")
-	if fn == nil {
-		return
-	}
-	fi := c.P.Info(fn)
+	L := c.Locks()
+	isCB := func(name string, _ ir.CallSite) bool { return name == "dyn:"+fConnOnConn }
 	n := 0
-	for _, cs := range c.P.Calls(fn, func(name string, _ ir.CallSite) bool { return name == "dyn:"+fConnOnConn }) {
-		n++
-		key := c.siteKey(fn, "onConnected", n)
-		if len(cs.Common.Args) != 2 || !ir.IsNilConst(cs.Common.Args[1]) {
-			c.OK("C03.O7", key, c.Pos(cs.In), "reports a non-nil error")
+	for _, fn := range c.nbioFuncs() {
+		if fn == core.Teardown {
 			continue
 		}
-		// evidence of establishment: a dominating fact derived from getsockopt(SO_ERROR)
-		// or from the event's error flags being clear
-		ev := fi.HasFact(cs.In, func(ft ir.Fact) bool {
-			d := c.P.Desc(ft.Cond)
-			if strings.Contains(d, "syscall.GetsockoptInt") {
-				return true
+		fi := c.P.Info(fn)
+		k := 0
+		for _, cs := range c.P.Calls(fn, isCB) {
+			n++
+			k++
+			key := c.siteKey(fn, "onConnected", k)
+			if len(cs.Common.Args) != 2 || !ir.IsNilConst(cs.Common.Args[1]) {
+				c.OK("C03.O7", key, c.Pos(cs.In), "reports a non-nil error")
+				continue
 			}
-			// (ev.Events & epollEventsError) == 0 on this edge
-			cmp, ok := ir.DecodeIntCmp(ft.Cond)
-			if !ok {
-				return false
+			// evidence of establishment
+			ev := fi.HasFact(cs.In, func(ft ir.Fact) bool {
+				d := c.P.Desc(ft.Cond)
+				if strings.Contains(d, "syscall.GetsockoptInt") {
+					return true
+				}
+				cmp, ok := ir.DecodeIntCmp(ft.Cond)
+				if !ok {
+					return false
+				}
+				b, ok := ir.Resolve(cmp.Expr).(*ssa.BinOp)
+				if !ok || b.Op != token.AND {
+					return false
+				}
+				mask, isK := ir.ConstInt(b.Y)
+				if !isK {
+					mask, isK = ir.ConstInt(b.X)
+				}
+				errBits := c.epollConst("EPOLLERR") | c.epollConst("EPOLLHUP")
+				if !isK || mask&errBits != errBits {
+					return false
+				}
+				return cmp.Holds(0) == ft.Truth && cmp.Holds(1) != ft.Truth
+			})
+			if !ev {
+				// SO_ERROR read by a dominating getsockopt whose outcome (error or errno) is tested nil on this path
+				for _, g := range c.P.CallsNamed(fn, "syscall.GetsockoptInt") {
+					if len(g.Common.Args) != 3 || !fi.Dominates(g.In, cs.In) {
+						continue
+					}
+					if so, ok := ir.ConstInt(g.Common.Args[2]); !ok || so != c.sysConst("SO_ERROR") {
+						continue
+					}
+					dep := c.dependsOn(fn, g.Value())
+					if fi.HasFact(cs.In, func(ft ir.Fact) bool {
+						x, isNil, ok := ir.NilTest(ft.Cond, ft.Truth)
+						return ok && isNil && dep[ir.Resolve(x)]
+					}) {
+						ev = true
+					}
+				}
 			}
-			b, ok := ir.Resolve(cmp.Expr).(*ssa.BinOp)
-			if !ok || b.Op != token.AND {
-				return false
+			c.Cond(ev, "C03.O7", key, c.Pos(cs.In), "success report dominated by an SO_ERROR / error-flag test",
+				"dial success is reported on the first EPOLLOUT without testing SO_ERROR or the event's error flags: a refused connect is reported as (c, nil)")
+			// consume-once: the callback value is taken and the field cleared under Conn.mux, behind !closed
+			key2 := c.siteKey(fn, "onConnected consumed once", k)
+			bad := ""
+			ld, isLoad := ir.Resolve(cs.Common.Value).(*ssa.UnOp)
+			if !isLoad || c.P.LoadedField(ld) != fConnOnConn {
+				bad = "the callback is not read from Conn.onConnected"
+			} else {
+				if !L.HeldClass(ld, fConnMux) {
+					bad = "the pending callback is read at " + c.Pos(ld) + " without Conn.mux: the poller's success report and a teardown running at the same time (dial timeout, Stop) can both run it"
+				} else if !c.underNotClosed(fi, ld, fConnClosed) {
+					bad = "the pending callback is taken at " + c.Pos(ld) + " without the !closed test: a teardown that has already set closed reports the failure as well"
+				}
+				cleared := false
+				for _, st := range c.P.StoresTo(fn, fConnOnConn) {
+					if ir.IsNilConst(st.Val) && fi.Dominates(st, cs.In) && L.HeldClass(st, fConnMux) {
+						cleared = true
+					}
+				}
+				if bad == "" && !cleared {
+					bad = "Conn.onConnected is not cleared (under Conn.mux) before the callback is run: a teardown during the callback reports a second outcome"
+				}
 			}
-			mask, isK := ir.ConstInt(b.Y)
-			if !isK {
-				mask, isK = ir.ConstInt(b.X)
-			}
-			errBits := c.epollConst("EPOLLERR") | c.epollConst("EPOLLHUP")
-			if !isK || mask&errBits != errBits {
-				return false
-			}
-			zeroOnEdge := cmp.Holds(0) == ft.Truth && cmp.Holds(1) != ft.Truth
-			return zeroOnEdge
-		})
-		c.Cond(ev, "C03.O7", key, c.Pos(cs.In), "success report dominated by an SO_ERROR / error-flag test",
-			"dial success is reported on the first EPOLLOUT without testing SO_ERROR or the event's error flags: a refused connect is reported as (c, nil)")
+			c.Cond(bad == "", "C03.O7", key2, c.Pos(cs.In), "taken under Conn.mux behind !closed, field cleared before the call", bad)
+		}
 	}
 	if n == 0 {
-		c.Unres("C03.O7", "onConnected call in readWriteLoop", "not found")
+		c.Unres("C03.O7", "success report of the dial completion", "no call of Conn.onConnected outside the teardown")
 	}
-	// teardown reports a pending callback
+	// teardown reports a pending callback, once
 	td := core.Teardown
 	reports := false
+	clears := false
 	for _, g := range ir.WithClosures(td) {
-		if len(c.P.Calls(g, func(name string, _ ir.CallSite) bool { return name == "dyn:"+fConnOnConn })) > 0 {
-			reports = true
+		gi := c.P.Info(g)
+		for _, cs := range c.P.Calls(g, isCB) {
+			if len(cs.Common.Args) == 2 && !ir.IsNilConst(cs.Common.Args[1]) {
+				reports = true
+			}
+			for _, st := range c.P.StoresTo(g, fConnOnConn) {
+				if ir.IsNilConst(st.Val) && gi.Dominates(st, cs.In) {
+					clears = true
+				}
+			}
 		}
 	}
 	c.Cond(reports, "C03.O7", fnKey(c.P, td, "pending dial callback reported"), c.FnPos(td), "teardown invokes a pending onConnected with the failure",
 		"a connection torn down while its dial callback is pending (refused, timed out, closed) never invokes the callback: the dial outcome is not reported")
+	if reports {
+		c.Cond(clears, "C03.O7", fnKey(c.P, td, "pending dial callback reported once"), c.FnPos(td), "field cleared before the callback",
+			"the teardown runs the pending callback without clearing Conn.onConnected first")
+	}
+}
+
+// sysConst looks up an integer constant of package syscall.
+func (c *Ctx) sysConst(name string) int64 {
+	for _, sp := range c.P.SSA.AllPackages() {
+		if sp.Pkg.Path() == "syscall" {
+			if m, ok := sp.Members[name].(*ssa.NamedConst); ok {
+				if n, ok := ir.ConstInt(m.Value); ok {
+					return n
+				}
+			}
+		}
+	}
+	return -1
 }
 
 // epollConst looks up a syscall EPOLL* constant.
